@@ -90,6 +90,11 @@ func translatePolyX(cal *Prover, p Poly, callee *ssa.Function, caller *Prover, a
 			if ok {
 				return atomP(caller.atom(aRem, nil, in, a.c, a.uns).id), true
 			}
+		case aTab:
+			in, ok := trPoly(a.inner)
+			if ok {
+				return atomP(caller.atom(aTab, a.val, in, 0, a.uns).id), true
+			}
 		}
 		return nil, false
 	}
